@@ -16,6 +16,11 @@ pub struct PVertex {
 }
 
 pub fn parse_hex(text: &str) -> Option<Vec<u8>> {
+    // any separators (blanks, line breaks, dashes) or none, but the two digits of a byte stand
+    // together: a token of odd length is a byte torn apart, not a rendering of the bytes
+    if text.split(|c: char| c.is_whitespace() || c == '-').any(|tok| tok.len() % 2 != 0) {
+        return None;
+    }
     let t: String = text.chars().filter(|c| !c.is_whitespace() && *c != '-').collect();
     if t.len() % 2 != 0 || !t.chars().all(|c| c.is_ascii_hexdigit()) {
         return None;
